@@ -540,6 +540,9 @@ def generate():
     from .translate_xr2 import generate_xr2
 
     status.update(generate_xr2(gen))
+    from .translate_dims import generate_dims
+
+    status.update(generate_dims(gen))
     return status
 
 
